@@ -10,6 +10,9 @@ import (
 
 func TestMain(m *testing.M) {
 	log.SetOutput(io.Discard) // the parser logs PORYSCRIPT WARNING lines
+	if os.Getenv("VERIF_REPLAY") == "" {
+		startWatchdog()
+	}
 	code := m.Run()
 	flushStats()
 	cleanupTmp()
